@@ -19,7 +19,7 @@ theorem stmtOK_of_guards {S : List Stmt} (w1 : WellIndexed S) (w2 : NoFunctionCl
     ∀ stmt ∈ S, StmtOK stmt := by
   intro stmt hst
   refine ⟨?_, ?_⟩
-  · intro s hs; exact (w1 s (stmtOcc_subset hst s hs)).1
+  · intro s hs hf; exact (w1 s (stmtOcc_subset hst s hs)).1 (by rw [hf]; rfl)
   · intro s1 h1 s2 h2; exact w2 s1 (stmtOcc_subset hst s1 h1) s2 (stmtOcc_subset hst s2 h2)
 
 theorem mem_termSyms {e c : String} {ts : List Term} {t : Term} (ht : t ∈ ts) (hv : t.type ≠ .verbatim) :
